@@ -59,6 +59,7 @@ type Contract struct {
 	Hints    map[string][]*Clause // statement-ordinal -> asserted hints
 	Drops    []string             // callee names whose calls are dropped (no effect) in this function
 	Dead     []string             // return tags (ret5) that are expected to be unreachable (defensive code)
+	Options  map[string]bool
 	Used     bool
 }
 
@@ -559,6 +560,7 @@ func (p *sparser) sortName() string {
 		p.expectOp("<")
 		k := p.sortName()
 		p.expectOp(">")
+		pendingSliceElems = append(pendingSliceElems, k)
 		return sliceSort(k)
 	}
 	return t.text
@@ -590,7 +592,7 @@ var clauseKeywords = map[string]bool{
 	"func": true, "lemma": true, "axiom": true, "ghost": true, "specfun": true, "mode": true,
 	"requires": true, "ensures": true, "assigns": true, "loop": true, "trusted": true, "pure": true,
 	"props": true, "let": true, "valuestruct": true, "constglobal": true, "canary": true, "nobody": true,
-	"hint": true, "drop": true, "end": true, "dead": true,
+	"hint": true, "drop": true, "end": true, "dead": true, "option": true,
 }
 
 // readSpecLines extracts the logical spec lines of a file. For .go files only
@@ -757,6 +759,13 @@ func (sp *Specs) loadFile(path string, defaultPkg string) error {
 			cur.Drops = append(cur.Drops, splitList(l.rest)...)
 		case "dead":
 			cur.Dead = append(cur.Dead, splitList(l.rest)...)
+		case "option":
+			if cur.Options == nil {
+				cur.Options = map[string]bool{}
+			}
+			for _, o := range splitList(l.rest) {
+				cur.Options[o] = true
+			}
 		case "requires", "ensures":
 			if cur == nil {
 				return fmt.Errorf("%s: %s outside func", pos, l.kw)
@@ -1048,6 +1057,9 @@ func splitTopAngle(s string) []string {
 	}
 	return out
 }
+
+// element sorts of Slice<...> sorts mentioned in specifications (declared by the Universe after loading)
+var pendingSliceElems []string
 
 func sliceSort(elem string) string { return "Slice_" + mangle(elem) }
 
